@@ -1287,7 +1287,10 @@ def run(ctx, prop):
         "A: every call of the modelled backend functions made while those procedures are compiled, plus random "
         "CIR trees / name sequences, replayed in the Lean model; distinct = request line")
     ctx.assumptions += [
-        "statement-level simulation exec ~ execC is NOT proved; whole-program behaviour is covered by the differential search only",
+        "statement-level simulation exec ~ execC is proved (Props/C02Stmt.lean, compL_simulation_partial) for the DRAM core "
+        "(Pass/Assign/Reduce/WriteConfig/If/For/Alloc/Free/WindowStmt; tensors, windows, scalars, config) with allocation-status "
+        "monitors off and under modOK (no possibly-negative % numerator); calls, instructions, externs, casts, other memories are "
+        "covered by the differential search only",
         "range analysis flags (is_non_neg) are sound: proved for the model in C13, assumed here as hypothesis FlagsOK",
         "inputs are small integers / dyadic rationals so that f32/f64 arithmetic is exact; index values fit int (exo_floor_div takes int)",
         "gcc 12 -O1 with ASan/UBSan/LSan as the observer of undefined behaviour and leaks",
@@ -1297,7 +1300,7 @@ def run(ctx, prop):
         "harness/ccmodel.py serialisers and the C expression evaluator c_eval (ties emitted text to CExpr trees)",
         "memories other than DRAM / DRAM_STATIC / DRAM_STACK / MDRAM, instruction procedures and f16 are not executed",
     ]
-    broken = ctx.lean_obligations([f"ExoModel.Props.{prop}"])
+    broken = ctx.lean_obligations([f"ExoModel.Props.{prop}", "ExoModel.Props.C02Stmt"])
     for b in broken:
         ctx.violation(f"obligation:{b}", f"proof obligation broken: {b}", {"obligation": b}, no_input=True)
 
@@ -1341,6 +1344,7 @@ def run(ctx, prop):
         pool.POOL.update(saved)
 
     cases = {}
+    stmt_bad = []
     n_units = n_exc = 0
     for r in recs:
         if r["error"]:
@@ -1372,10 +1376,19 @@ def run(ctx, prop):
                 if len(notes) < 12 and not any(n["key"] == x["key"] for n in notes):
                     notes.append({"key": x["key"], "what": x["what"], "program": x["program"],
                                   "hist": [h["op"] for h in x.get("hist", [])], "diag": x["diag"][:800]})
+            elif kind == "stmt-mismatch":
+                ctx.count("stmt-mismatch")
+                if prop == "C02":
+                    stmt_bad.append(x)
             elif kind in X_KINDS[prop]:
                 ctx.violation(x["key"], f"{x['program']} [{' ; '.join(h['op'] for h in x.get('hist', [])) or 'as written'}]: {x['what']}", x)
             else:
                 ctx.count(f"finding-of-{other}:{kind}")
+    if stmt_bad:
+        x = min(stmt_bad, key=lambda y: len(y.get("proc_text", "")))
+        # the simulation theorem (Props/C02Stmt.lean) is about compL; the real comp_s no longer is compL
+        ctx.violation("model-correspondence:comp_s", f"{x['program']}: {x['what']}", x,
+                      no_input=not any(v["key"] != "model-correspondence:comp_s" and not v["no_input"] for v in ctx.violations))
     ctx.evaluations += ctx.counts.get("runs", 0)
     for i in range(ctx.counts.get("runs-agree", 0) + ctx.counts.get("runs-diff", 0) + ctx.counts.get("runs-abort", 0)):
         ctx.distinct.add(("run", i))
